@@ -552,6 +552,10 @@ func cmd2(c *Ctx) {
 				case *ssa.MakeClosure:
 					ef, _ = v.Fn.(*ssa.Function)
 				}
+				if ef != nil && ir.IsStdFunc(ef, "os", "Exit") {
+					okExit = true // os.Exit itself
+					return
+				}
 				if ef == nil || len(ef.Params) != 1 || len(ef.Blocks) == 0 {
 					why = "the value stored into the exit indirection is not a function of the exit status"
 					return
@@ -2680,4 +2684,31 @@ func cmd12(c *Ctx) {
 			}
 		})
 	}
+	// the policy of an existing command is the application's business: the library sets ErrorHandling only
+	// when it builds a command
+	var writers []string
+	for _, fn := range c.ClosureFuncsDeep() {
+		ir.Instrs(fn, func(in ssa.Instruction) {
+			st, ok := in.(*ssa.Store)
+			if !ok {
+				return
+			}
+			fa, isFA := st.Addr.(*ssa.FieldAddr)
+			if !isFA {
+				return
+			}
+			b, f, isF := ir.FieldAddr(st.Addr)
+			if !isF || f != "ErrorHandling" || !c.isNamed(b.Type(), "", "Cmd") {
+				return
+			}
+			if al, isAl := fa.X.(*ssa.Alloc); isAl && al.Comment == "complit" {
+				return
+			}
+			writers = append(writers, Q(fn)+" at "+c.P.Pos(st.Pos()))
+		})
+	}
+	sort.Strings(writers)
+	mk := len(c.Obs)
+	c.Check(len(writers) == 0, "writers(Cmd.ErrorHandling)", token.NoPos, "the library sets a command's ErrorHandling only in the literal that creates it", "ErrorHandling of an existing command is overwritten by "+strings.Join(writers, ", ")+": a policy the application set on that command would be lost")
+	c.Scope(mk, "C07", "C14")
 }
